@@ -321,6 +321,51 @@ theorem C07_aggregator_formula {ι : Type} (n : Nat) (cpws : List (ι × Tree ×
     obtain ⟨c, hc, rfl⟩ := List.mem_map.mp hp
     exact hlen c hc
 
+/-! ## weights need not be normalised -/
+
+theorem totalW_scale (c : Rat) (pws : List (Tree × Rat)) :
+    totalW (pws.map fun p => (p.1, c * p.2)) = c * totalW pws := by
+  unfold totalW
+  induction pws with
+  | nil => simp
+  | cons p pws ih =>
+    simp only [List.map_cons, List.sum_cons] at ih ⊢
+    rw [ih]; ring
+
+theorem wsumAt_scale (k : Nat) (c : Rat) (pws : List (Tree × Rat)) :
+    wsumAt k (pws.map fun p => (p.1, c * p.2)) = c * wsumAt k pws := by
+  unfold wsumAt
+  induction pws with
+  | nil => simp
+  | cons p pws ih =>
+    simp only [List.map_cons, List.sum_cons] at ih ⊢
+    rw [ih]; ring
+
+/-- Weights need not be normalised: multiplying every weight by the same `c > 0` (e.g. passing
+`num_examples` versus `num_examples / total`) leaves the mean unchanged. -/
+theorem C07_mean_weight_scale (n : Nat) (c : Rat) (hc : 0 < c) (pws : List (Tree × Rat))
+    (hlen : ∀ p ∈ pws, p.1.length = n) :
+    treeMean (pws.map fun p => (p.1, c * p.2)) = treeMean pws := by
+  by_cases hne : pws = []
+  · subst hne; rfl
+  · have hne' : (pws.map fun p : Tree × Rat => (p.1, c * p.2)) ≠ [] := by simpa using hne
+    have hlen' : ∀ p ∈ (pws.map fun p : Tree × Rat => (p.1, c * p.2)), p.1.length = n := by
+      intro p hp
+      obtain ⟨q, hq, rfl⟩ := List.mem_map.mp hp
+      exact hlen q hq
+    rw [C07_mean_formula n _ hne' hlen', C07_mean_formula n pws hne hlen]
+    congr 1
+    apply List.map_congr_left
+    intro k _
+    simp only [wmeanAt, totalW_scale, wsumAt_scale]
+    by_cases hpos : 0 < totalW pws
+    · have : 0 < c * totalW pws := mul_pos hc hpos
+      rw [if_pos this, if_pos hpos]
+      field_simp
+    · have : ¬ 0 < c * totalW pws := by
+        intro h; exact hpos ((mul_pos_iff_of_pos_left hc).mp h)
+      rw [if_neg this, if_neg hpos]
+
 /-! ## clipping by global norm, over any linearly ordered field -/
 
 section Clip
@@ -420,6 +465,26 @@ theorem C07_clip_zero (nrm M : K) (xs : List K) (hn : 0 ≤ nrm) (hsq : nrm * nr
     rw [hz x hx]; ring
   have hn0 : nrm = 0 := mul_self_eq_zero.mp (hsq.trans h0)
   exact ⟨hn0, C07_clip_identity nrm M xs hn hM (by rw [hn0]; exact hM.le)⟩
+
+/-- Clipping is idempotent: clipping the clipped tree again (with its own norm) changes nothing. -/
+theorem C07_clip_idempotent (nrm M : K) (xs : List K) (hn : 0 ≤ nrm)
+    (hsq : nrm * nrm = l2Squared xs) (hM : 0 < M) :
+    ∃ ys nrm', clipByGlobalNorm nrm M xs = some ys ∧ 0 ≤ nrm' ∧ nrm' * nrm' = l2Squared ys ∧
+      clipByGlobalNorm nrm' M ys = some ys := by
+  obtain ⟨ys, nrm', h1, h2, h3, h4, _, _⟩ := C07_clip_norm nrm M xs hn hsq hM
+  exact ⟨ys, nrm', h1, h2, h3, C07_clip_identity nrm' M ys h2 hM h4⟩
+
+/-- Clipping keeps the tree structure and never increases the global norm (`‖clip x‖² ≤ ‖x‖²`). -/
+theorem C07_clip_shrinks (nrm M : K) (xs : List K) (hn : 0 ≤ nrm) (hM : 0 < M) :
+    ∃ ys, clipByGlobalNorm nrm M xs = some ys ∧ ys.length = xs.length ∧
+      l2Squared ys ≤ l2Squared xs := by
+  obtain ⟨s, h1, h2, h3⟩ := C07_clip_direction nrm M xs hn hM
+  refine ⟨_, h3, by simp, ?_⟩
+  rw [l2Squared_scale]
+  have hss : s * s ≤ 1 := by nlinarith
+  calc s * s * l2Squared xs ≤ 1 * l2Squared xs :=
+        mul_le_mul_of_nonneg_right hss (l2Squared_nonneg xs)
+    _ = l2Squared xs := one_mul _
 
 omit [IsStrictOrderedRing K] in
 /-- The guard `0 < M` is necessary: at bound `0` the zero tree has no finite image (`0/0`). -/
